@@ -102,9 +102,18 @@ static json J(const std::string &bytes) { return b2u(subst_out(bytes)); }
 static json J(const char *p) { if (!p) return nullptr; return J(std::string(p)); }
 
 struct OptStr {                 // optional C string argument taken from a plan
-  bool null = true; std::string s;
-  const char *c() const { return null ? nullptr : s.c_str(); }
+  bool null = true; std::string s; const char *fixed = nullptr;
+  const char *c() const { return null ? nullptr : (fixed ? fixed : s.c_str()); }
 };
+// A caller may keep its delimiter / comment / suffix / name strings in buffers that it reuses from call
+// to call: the same address then carries different text over time.  The executor does exactly that, so
+// that library state keyed by argument ADDRESS instead of content cannot go unnoticed.
+static void pin(OptStr &o, int slot) {
+  static thread_local char bufs[8][512];
+  if (o.null || o.s.size() + 1 > sizeof bufs[0] || memchr(o.s.data(), 0, o.s.size())) return;
+  memcpy(bufs[slot], o.s.c_str(), o.s.size() + 1);
+  o.fixed = bufs[slot];
+}
 static OptStr S(const json &o, const char *key) {
   OptStr r; auto it = o.find(key);
   if (it == o.end() || it->is_null()) return r;
@@ -710,12 +719,12 @@ static json exec_op(TaskCtx *t, const json &op) {
     econf_err rc; { LibCall L; rc = econf_newKeyFile_with_options(&kf, options.c()); }
     r["rc"] = (int)rc; r["out"] = ptr_state(kf); put_slot(t, oi, kf);
   } else if (o == "readFile") {
-    econf_file *kf = sentinel ? SENTINEL : nullptr; STR(path); STR(delim); STR(comment);
+    econf_file *kf = sentinel ? SENTINEL : nullptr; STR(path); STR(delim); STR(comment); pin(delim, 0); pin(comment, 1);
     econf_err rc; { LibCall L; rc = use_cb ? econf_readFileWithCallback(&kf, path.c(), delim.c(), comment.c(), the_callback, cbdata)
                                            : econf_readFile(&kf, path.c(), delim.c(), comment.c()); }
     r["rc"] = (int)rc; r["out"] = ptr_state(kf); put_slot(t, oi, kf);
   } else if (o == "readDirs") {
-    econf_file *kf = sentinel ? SENTINEL : nullptr; STR(usr); STR(etc); STR(name); STR(suffix); STR(delim); STR(comment);
+    econf_file *kf = sentinel ? SENTINEL : nullptr; STR(usr); STR(etc); STR(name); STR(suffix); STR(delim); STR(comment); pin(delim, 0); pin(comment, 1); pin(suffix, 2); pin(name, 3);
     econf_err rc; {
       LibCall L;
 #pragma GCC diagnostic push
@@ -727,7 +736,7 @@ static json exec_op(TaskCtx *t, const json &op) {
     r["rc"] = (int)rc; r["out"] = ptr_state(kf); put_slot(t, oi, kf);
   } else if (o == "readDirsHistory") {
     econf_file **kfs = sentinel ? HSENTINEL : nullptr; size_t size = (size_t)I(op, "size_init", 0);
-    STR(usr); STR(etc); STR(name); STR(suffix); STR(delim); STR(comment);
+    STR(usr); STR(etc); STR(name); STR(suffix); STR(delim); STR(comment); pin(delim, 0); pin(comment, 1); pin(suffix, 2); pin(name, 3);
     econf_err rc; { LibCall L; rc = use_cb ? econf_readDirsHistoryWithCallback(&kfs, &size, usr.c(), etc.c(), name.c(), suffix.c(), delim.c(), comment.c(), the_callback, cbdata)
                                            : econf_readDirsHistory(&kfs, &size, usr.c(), etc.c(), name.c(), suffix.c(), delim.c(), comment.c()); }
     r["rc"] = (int)rc; r["out"] = ptr_state(kfs); r["size"] = size;
@@ -739,7 +748,7 @@ static json exec_op(TaskCtx *t, const json &op) {
     econf_file *kf = nullptr; bool had_in = op.contains("in") && !op["in"].is_null();
     int ii = had_in ? op["in"].get<int>() : -1;
     if (had_in) { kf = slot(t, op, "in"); t->slots.erase(ii); }
-    STR(project); STR(usr_subdir); STR(name); STR(suffix); STR(delim); STR(comment);
+    STR(project); STR(usr_subdir); STR(name); STR(suffix); STR(delim); STR(comment); pin(delim, 0); pin(comment, 1); pin(suffix, 2); pin(name, 3); pin(project, 4);
     econf_err rc; { LibCall L; rc = use_cb ? econf_readConfigWithCallback(&kf, project.c(), usr_subdir.c(), name.c(), suffix.c(), delim.c(), comment.c(), the_callback, cbdata)
                                            : econf_readConfig(&kf, project.c(), usr_subdir.c(), name.c(), suffix.c(), delim.c(), comment.c()); }
     r["rc"] = (int)rc; r["out"] = ptr_state(kf); put_slot(t, oi, kf);
@@ -842,6 +851,12 @@ static json exec_op(TaskCtx *t, const json &op) {
       }
       put_slot(t, oi, acc);
     }
+  } else if (o == "historyMember") {
+    // borrow one member of a history as an ordinary object slot (and give it back before the history is freed)
+    auto h = t->hslots.find((int)I(op, "h", -1));
+    if (op.contains("release")) { t->slots.erase((int)I(op, "release")); }
+    else if (h != t->hslots.end() && h->second.second > 0) { size_t i = (size_t)I(op, "i") % h->second.second; put_slot(t, oi, h->second.first[i]); r["rc"] = 0; r["i"] = i; }
+    else r["rc"] = 1;
   } else if (o == "free") {
     auto s = t->slots.find((int)I(op, "k", -1));
     econf_file *kf = s == t->slots.end() ? nullptr : s->second; if (s != t->slots.end()) t->slots.erase(s);
@@ -1101,6 +1116,11 @@ int main(int argc, char **argv) {
     if (plan.contains("cmd")) {
       std::string c = plan["cmd"].get<std::string>();
       if (c == "coverage") { printf("%s\n", coverage_report(cov_pcs || plan.value("pcs", false)).dump().c_str()); fflush(stdout); }
+      else if (c == "pctable") {
+        json pcs = json::array();
+        if (sim_pcs_beg) for (const uintptr_t *q = sim_pcs_beg; q < sim_pcs_end; q += 2) { char b[32]; snprintf(b, sizeof b, "0x%" PRIxPTR, q[0]); pcs.push_back(b); }
+        printf("%s\n", json{{"pcs", pcs}}.dump().c_str()); fflush(stdout);
+      }
       else if (c == "quit") break;
       continue;
     }
